@@ -283,6 +283,7 @@ def _stage_of(term):
 
 def rule_staging(facts):
     r = report.RuleResult("C05.R3", "staged bytes: slices handed to readers end at the fill position; positions move only by fill / compaction / drain")
+    _fill_caps(facts)
     bodies = [pat.body_of(facts, "Stream as std::io::Write>::write"), pat.body_of(facts, "DecoderState::process_mode"),
               pat.body_of(facts, "decode::stream::Stream::finish"), pat.body_of(facts, "DecoderState::read_partial_input_buf")]
     r.need("Stream::write, process_mode, Stream::finish, read_partial_input_buf", None not in bodies)
@@ -322,6 +323,29 @@ def rule_staging(facts):
             else:
                 r.bad("%s|slice-bound:%s" % (fn, st), "a reader is given %s%s: bytes beyond the fill position are stale, not input"
                       % (st, flow.show(rng)[:70]), pat.where(b, blk.idx))
+        # (a2) fills: input is staged into the array up to its end (the header needs up to 13 + 5 bytes whatever the option:
+        # a destination capped below the capacity can starve the header parser for ever)
+        for blk in b.calls():
+            d_ = flow.declared(blk.term) or ""
+            nm = flow.callee(blk.term) or ""
+            if not (d_.endswith("Read::read") or nm.endswith("read_into")) or len(blk.term.args) < 2:
+                continue
+            t = tm.of_operand(blk.term.args[1])
+            st = _stage_of(t)
+            if st is None:
+                continue
+            idx = [q for q in _subterms(t) if q[0] == "call" and q[1].endswith("index_mut") and _stage_of(q)]
+            if not idx:
+                continue
+            rng = idx[0][2][1]
+            capv = _constval(rng[2][-1]) if (rng[0] == "agg" and rng[1].endswith(("Range::Range", "RangeTo::RangeTo", "RangeInclusive"))) else None
+            full = rng[0] == "agg" and rng[1].endswith(("RangeFrom::RangeFrom", "RangeFull::RangeFull"))
+            if full or (capv is not None and CAPS.get(st) is not None and capv >= CAPS[st]):
+                r.ok("term", {"fn": fn, "fill of %s" % st: "up to the end of the array"})
+            else:
+                r.bad("%s|fill-capped:%s" % (fn, st), "input is staged into `%s` only up to %s, not to the end of the array: with an option that "
+                      "needs more header bytes than that the header can never be parsed" % (st, flow.show(rng[2][-1])[:50] if rng[0] == "agg" else "?"),
+                      pat.where(b, blk.idx))
         # (b) position updates
         for blk in b.calls():
             nm = flow.callee(blk.term) or ""
